@@ -429,6 +429,37 @@ func runWallet(r *evid.Run, dir string, idx int, cs int64) {
 			r.Hit("reoffered-after-restart", len(want))
 		}
 	}
+	// ---- no backend attached (connection down / not yet synchronised): the
+	// hand-over cannot even start; an error must be returned and nothing recorded
+	if rg.Intn(2) == 0 {
+		outs := []*wire.TxOut{wire.NewTxOut(int64(15000+rg.Intn(40000)), dpk)}
+		atx, e := f.W.CreateSimpleTx(nil, 0, outs, 1, 2000, wallet.CoinSelectionLargest, false)
+		if e == nil {
+			f.Stop()
+			if err := f.OpenOffline(true); err != nil {
+				fail("c20:reopen-offline", err.Error())
+				return
+			}
+			before := f.Snapshot()
+			sent0 := len(ch.SentTxs())
+			perr := f.W.PublishTransaction(atx.Tx, "")
+			after := f.Snapshot()
+			log = append(log, fmt.Sprintf("publish with no backend attached -> err=%v", perr))
+			r.Hit("attempts:no-backend-attached", 1)
+			switch {
+			case len(ch.SentTxs()) != sent0:
+				fail("c20:harness-backend-reached", "the detached backend received a transaction")
+				return
+			case perr == nil:
+				fail("c20:failed-broadcast-reported-success:no-backend-attached", "PublishTransaction returned nil although no backend is attached")
+				return
+			case after != before:
+				fail("c20:state-not-restored:no-backend-attached", fmt.Sprintf("PublishTransaction failed (%v, no backend attached) but balance / spendable set / unconfirmed set differ from before the attempt:\n before %s\n after  %s", perr, before, after))
+				return
+			}
+			r.Hit("failed-broadcasts-left-no-trace", 1)
+		}
+	}
 	r.Hit("wallets", 1)
 	r.Case(fmt.Sprint(cs, log), true)
 	if r.WantSample() && len(log) > 4 {
@@ -553,7 +584,7 @@ func reoffer(r *evid.Run, f *wh.Funded, rg *rand.Rand, log *[]string, fail func(
 
 func main() {
 	r := evid.New(P, "fault_enumeration")
-	r.Rule("complete funded wallets over the fake backend; at every broadcast (fresh SendOutputs, chained send spending a pending transaction's change at minconf 0, CreateSimpleTx + PublishTransaction, re-publish of a recorded parent that has unconfirmed children) one backend answer class is applied, cycling through all of: accepted, already-in-mempool, already-known, already-confirmed, rejected (generic / insufficient fee / mempool conflict) and subscription failure at the 1st and at the 2nd NotifyReceived call of the attempt. Oracle per class from a before/after snapshot (balance at 0 and 1 conf, ListUnspent set, unconfirmed set, leases): failed attempts return an error and leave the snapshot identical (and remove every unconfirmed descendant of a re-published parent, releasing its coins); accepted / already-in-mempool record the transaction exactly once, make its inputs unspendable and count the change once; already-known/confirmed return no error. Re-offer: the synchronous verif hook runs the wallet's rebroadcast with three answer policies (accept all / reject the first offered / reject a random one): every unconfirmed transaction that is not a descendant of a rejected one must be offered exactly once, parents before children, and rejected ones (with descendants) must be forgotten; after restarts the production (detached) trigger is judged once no goroutine is left inside the rebroadcast. Non-trivial = every wallet; distinct = distinct attempt logs.")
+	r.Rule("complete funded wallets over the fake backend (plus, at the end of half of the wallets, a PublishTransaction with NO backend attached, which must fail and leave no trace); at every broadcast (fresh SendOutputs, chained send spending a pending transaction's change at minconf 0, CreateSimpleTx + PublishTransaction, re-publish of a recorded parent that has unconfirmed children) one backend answer class is applied, cycling through all of: accepted, already-in-mempool, already-known, already-confirmed, rejected (generic / insufficient fee / mempool conflict) and subscription failure at the 1st and at the 2nd NotifyReceived call of the attempt. Oracle per class from a before/after snapshot (balance at 0 and 1 conf, ListUnspent set, unconfirmed set, leases): failed attempts return an error and leave the snapshot identical (and remove every unconfirmed descendant of a re-published parent, releasing its coins); accepted / already-in-mempool record the transaction exactly once, make its inputs unspendable and count the change once; already-known/confirmed return no error. Re-offer: the synchronous verif hook runs the wallet's rebroadcast with three answer policies (accept all / reject the first offered / reject a random one): every unconfirmed transaction that is not a descendant of a rejected one must be offered exactly once, parents before children, and rejected ones (with descendants) must be forgotten; after restarts the production (detached) trigger is judged once no goroutine is left inside the rebroadcast. Non-trivial = every wallet; distinct = distinct attempt logs.")
 	r.Trusted("internal/fakechain", "verif hook wallet.VerifResendUnminedTxs (synchronous call of the unexported method)")
 	r.Assume("already-known / already-confirmed: only 'no error' is asserted (the wallet expects the block notification)", "quiescence of the detached rebroadcast goroutine is decided from goroutine state")
 	dir, _ := os.MkdirTemp("", "c20")
